@@ -10,7 +10,7 @@ def run(tier, replay):
     if replay:
         events = json.load(open(replay))["replay"]["events"]
     else:
-        events = wv.record(res, PID, [(exe, [200, 0] if tier == "quick" else [6000, 1])])
+        events = wv.record(res, PID, [(exe, [200, 0] if tier == "quick" else [20000, 1])])
     bad, st = wv.validate_trace("AesTrace", events, name=PID + "/tlc", shards=8)
     keys = set((e["e"], tuple(e.get("key", [])), tuple(e.get("in", []))) for e in events)
     res.cov.update({"evaluations": len(events), "distinct_nontrivial": len(keys),
